@@ -596,6 +596,11 @@ class Union(Structure, metaclass=UnionMetaType):
         # (Re-)proxify all values
         self._proxify()
 
+        if (parent := getattr(self, "_parent", None)) is not None:
+            # This union is part of another union, which has to reflect the change too
+            union, member = parent
+            union._rebuild(member)
+
     def _update(self) -> None:
         result, sizes = self.__class__._read_fields(io.BytesIO(self._buf))
         self.__dict__.update(result)
@@ -615,7 +620,12 @@ class Union(Structure, metaclass=UnionMetaType):
                     member = attr or field._name
                     proxy = UnionProxy(self, member, nested_value)
                     object.__setattr__(value, field._name, proxy)
-                    _proxy_structure(nested_value, member)
+
+                    if isinstance(nested_value, Union):
+                        # A nested union keeps its own buffer and proxies, its changes bubble up to this union
+                        object.__setattr__(nested_value, "_parent", (self, member))
+                    else:
+                        _proxy_structure(nested_value, member)
 
         _proxy_structure(self)
 
